@@ -39,7 +39,7 @@ theorem KItems.not_touched {its : List KItem} {n : String} (h : n ∉ KItems.tou
 
 /-- the decoder of a list of items keeps what the dictionary says consistently with `W` -/
 theorem KItems.dec_consistent : (its : List KItem) → (∀ it ∈ its, it.ok W) →
-    (∀ o v b, KItem.key o v b ∈ its → W o.name = some v) → ∀ (d : DecState), d.cursorBit = 0 →
+    (∀ kd o v i b, KItem.key kd o v i b ∈ its → W o.name = some v) → ∀ (d : DecState), d.cursorBit = 0 →
     (Comps.pair (KItems.comps its)).fits d → Comps.decPre (KItems.comps its) d →
     ∀ n, lookup n d.lengthKeys = W n → lookup n ((Comps.pair (KItems.comps its)).dec d).2.lengthKeys = W n
   | [], _, _, _, _, _, _, _, h => h
@@ -50,16 +50,16 @@ theorem KItems.dec_consistent : (its : List KItem) → (∀ it ∈ its, it.ok W)
     have hhead : lookup n (it.toComp.pair.dec d).2.lengthKeys = W n := by
       cases it with
       | comp g nm => exact Comp.KOk.dec_keys hokit d hcb hfit'.1 hpre.1 n h
-      | key o v b =>
+      | key kd o v i b =>
         show lookup n (insertKV o.name v d.lengthKeys) = W n
         by_cases hne : n = o.name
-        · subst hne; rw [lookup_insertKV_self, hkw o v b (List.mem_cons_self ..)]
+        · subst hne; rw [lookup_insertKV_self, hkw kd o v i b (List.mem_cons_self ..)]
         · rw [lookup_insertKV_ne _ _ _ _ hne]; exact h
       | user u => exact h
       | ouser o v key => exact h
     simp only [KItems.comps_cons, Comps.pair, Pair.map, Pair.seq]
     exact KItems.dec_consistent its (fun x hx => hok x (List.mem_cons_of_mem _ hx))
-      (fun o v b hm => hkw o v b (List.mem_cons_of_mem _ hm)) _ ((it.decOk hokit).dec_cursorBit d hcb) hfit'.2 hpre.2 n hhead
+      (fun kd o v i b hm => hkw kd o v i b (List.mem_cons_of_mem _ hm)) _ ((it.decOk hokit).dec_cursorBit d hcb) hfit'.2 hpre.2 n hhead
 
 /-! ### both passes as one pair -/
 
@@ -128,24 +128,6 @@ def Comp.kstruct (name : String) (bp : Option Nat) (its : List KItem) : Comp whe
   decPre := fun d => Comps.decPre (KItems.comps its)
     { d with cursorByte := posOf bp d.origin d.cursorByte, origin := posOf bp d.origin d.cursorByte }
 
-/-- after the first pass every key of the list has its value and its recorded position -/
-theorem KItems.keys_ready (its : List KItem) (hrefs : KItems.refsOk W [] [] its) (hcov : KItems.covered its) (s s1 : EncState)
-    (hp1 : Pass1 W its s s1) : ∀ o v b, KItem.key o v b ∈ its →
-      lookup o.name s1.lengthKeys = some v ∧ (lookup o.name s1.keyPos).isSome = true := by
-  intro o v b hm
-  constructor
-  · cases b with
-    | true => exact hp1.supplied o v hm
-    | false =>
-      obtain ⟨it, hit, b, hb⟩ := hcov o v hm
-      have h1 := hp1.used it hit _ _ hb
-      have h2 := KItems.refsOk_key W [] [] its hrefs o v false hm
-      have h3 := KItems.refsOk_ref W [] [] its hrefs it hit _ _ hb
-      rw [h2] at h3
-      rw [h1, Option.some.inj h3]
-  · obtain ⟨pos, hpos⟩ := KItems.cells_of_key its s o v b hm
-    rw [hp1.pos _ hpos]; rfl
-
 /-- the state the content of a structure parameter is encoded from (as the model sets it up) … -/
 def encIn (bp : Option Nat) (s : EncState) : EncState :=
   { s with cursorByte := posOf bp s.origin s.cursorByte, cursorBit := 0,
@@ -199,7 +181,7 @@ theorem Comp.kstruct_kok (name : String) (bp : Option Nat) (its : List KItem) (h
     obtain ⟨s1, hrun1, hp1⟩ := KItems.encode1 W its hok hlast hap [] [] hrefs (Comps.values (KItems.comps its))
       (fun g hg => KItems.lookupV_values its hok hn g hg) f hf' s.isEndOfPdu heop (encIn bp s) hinv (fun n h => by cases h)
     have hkeys := KItems.keys_ready its hrefs hcov _ s1 hp1
-    have hkeys' : ∀ o v b, KItem.key o v b ∈ its →
+    have hkeys' : ∀ kd o v i b, KItem.key kd o v i b ∈ its →
         lookup o.name ({ s1 with isEndOfPdu := false } : EncState).lengthKeys = some v ∧
         (lookup o.name ({ s1 with isEndOfPdu := false } : EncState).keyPos).isSome = true := hkeys
     have hrun2 := KItems.encode2 its hok f hf' { s1 with isEndOfPdu := false } hkeys'
